@@ -124,3 +124,22 @@ func VerifBuildAckRanges(entries []VerifAckEntry, gaps []VerifAckRange) (out []V
 func (b *ConsumerBalancer) VerifSetPartitionRacks(racks map[string][]string) {
 	b.partitionRacks = racks
 }
+
+// verifStartSeqs maps a *Client to the sequence number its newly created
+// produce partitions start at (instead of 0), so that a workload can cross the
+// 2^31 wrap without producing two billion records first.
+var verifStartSeqs sync.Map
+
+// VerifSetStartSequence makes every produce partition that cl creates from now
+// on start its sequence numbers at seq. Call it before the first Produce.
+func VerifSetStartSequence(cl *Client, seq int32) { verifStartSeqs.Store(cl, seq) }
+
+// VerifClearStartSequence forgets cl.
+func VerifClearStartSequence(cl *Client) { verifStartSeqs.Delete(cl) }
+
+func verifInitRecBuf(r *recBuf) {
+	if v, ok := verifStartSeqs.Load(r.cl); ok {
+		r.seq = v.(int32)
+		r.batch0Seq = r.seq
+	}
+}
